@@ -39,7 +39,7 @@ pub use self::num_traits::{One, Signed, ToPrimitive, Zero};
 #[allow(unused_imports)] pub use self::context::*;
 #[allow(unused_imports)] use self::arithmetic::*;
 
-broadcast use {crate::ax::axiom_ref_into_self, crate::ax::axiom_ref_into_self_obeys, crate::shim::axiom_spec_magnitude, crate::vs::val_algebra_core};
+broadcast use {vstd::group_vstd_default, crate::ax::axiom_ref_into_self, crate::ax::axiom_ref_into_self_obeys, crate::shim::axiom_spec_magnitude, crate::vs::val_algebra_core};
 
 // ------------------------------------------------------------------ scale bound `B`
 /// machine-range precondition on scales of arithmetic contracts: |s| <= 2^61
